@@ -57,7 +57,7 @@ func tables() []*authx.Spec {
 
 func run(c *vf.Ctx) {
 	c.Rule("(1) every request history over the alphabet up to the stated depth x 4 callback tables x MaxAuthTries in {-1,1,2,3,6}; (2) every word of length <= 2 over the alphabet repeated to 140 requests x 3 tables x the same MaxAuthTries values, " +
-		"plus boundary histories X^n Y with n in {126..129}; (3) source-address lists x client addresses x 6 ways a callback returns Permissions; (4) MaxAuthTries {0,1,2,3,6,-1} and source-address end to end through NewServerConn. " +
+		"plus boundary histories X^n Y with n in {125..130}; (3) source-address lists x client addresses x 7 ways a callback returns Permissions; (4) MaxAuthTries {0,1,2,3,6,-1} and source-address end to end through NewServerConn. " +
 		"Each execution of the real serverAuthenticate is walked through the reference automaton; one transition = one request; a state = (table, MaxAuthTries, callback set, partial flag, locked user, failures, requests, none seen, last PublicKeyCallback decision)")
 	c.Assume("crypto/ed25519, crypto/rsa of the standard library (signature validity in the model); net/netip (source-address model)")
 	c.Assume("MaxAuthTries = 0 is only exercised through NewServerConn, which turns it into 6; the scripted-transport hook passes the configuration to serverAuthenticate unchanged")
